@@ -26,8 +26,8 @@ FUNCTIONS = ["evo.main_traj.run", "main_traj.load_trajectories", "to_filestem", 
              "load_transform", "lie_algebra.sim3_inverse", "PosePath3D.downsample / motion_filter / transform / project / align / align_origin",
              "trajectory.merge", "sync.associate_trajectories"]
 BOUNDS = {"quick": "1..2 trajectories + optional reference, N = 2..3 poses each, a fixed list of 19 option sets covering every option and the "
-                   "order-sensitive pairs", "thorough": "4 more option sets: down-sampling then "
-                   "motion filter, merge then time offset, origin alignment then projection, inverted Sim(3) propagation"}
+                   "order-sensitive pairs", "thorough": "4 more option sets (down-sampling then motion filter, merge then time offset, origin alignment then "
+                   "projection, inverted Sim(3) propagation) and 28 pairwise combinations of the processing options"}
 STUBS = ["main_traj.print_traj_info has an empty body (log formatting)", "text cells for the input files; writers captured (file I/O itself is C06/C07)", "SVD/eigh/sqrt/acos*/atan2 stubs"]
 ASSUMPTIONS = ["valid input files"]
 OUTSIDE = ["bag I/O", "plotting", "--save_table", "full_check printing", "--align / --correct_scale wiring inside evo_traj (Umeyama on the driver path did not finish within 20 min; "
@@ -64,6 +64,21 @@ OPTSETS = {
     "origin_then_project": dict(align_origin=True, ref=True, project="xy", n=1, thorough=True),
     "transform_right_inverted_sim3_propagate": dict(transform="right", invert=True, sim3=True, propagate=True, thorough=True),
 }
+
+# thorough tier: pairwise combinations of the processing options (those that finished within a minute when tried)
+_ATOMS = {"ds": dict(downsample=2, n=3), "to": dict(t_offset=True), "tl": dict(transform="left"), "tri": dict(transform="right", invert=True),
+          "pr": dict(project="xy"), "ao": dict(align_origin=True, ref=True), "mg": dict(merge=True, ntraj=2), "mf": dict(motion_filter=True, n=3),
+          "sy": dict(sync=True, ref=True)}
+PAIRS = [('ds', 'to'), ('ds', 'tl'), ('ds', 'tri'), ('ds', 'pr'), ('ds', 'ao'), ('ds', 'mg'), ('ds', 'mf'), ('ds', 'sy'), ('to', 'tl'), ('to', 'tri'), ('to', 'pr'), ('to', 'ao'), ('to', 'mg'), ('to', 'mf'), ('to', 'sy'), ('tl', 'pr'), ('tl', 'ao'), ('tl', 'mg'), ('tl', 'mf'), ('tl', 'sy'), ('tri', 'pr'), ('tri', 'ao'), ('tri', 'mg'), ('tri', 'mf'), ('tri', 'sy'), ('pr', 'ao'), ('pr', 'mg'), ('pr', 'sy')]
+for _a, _b in PAIRS:
+    _d = dict(_ATOMS[_a])
+    _d.update(_ATOMS[_b])
+    if "project" in _d and "downsample" not in _d and "motion_filter" not in _d:
+        _d["n"] = 1
+    if "transform" in _ATOMS[_a] and "transform" in _ATOMS[_b]:
+        continue
+    _d["thorough"] = True
+    OPTSETS["pair_%s_%s" % (_a, _b)] = _d
 
 
 def cases(tier, seed):
@@ -280,7 +295,8 @@ def run_run(case, col):
                 g["export_equals_input_without_options"] = z3.And(eqs)
             else:
                 g["export_equals_input_without_options"] = z3.BoolVal(False)
-        if o.get("transform") and o.get("invert") and captured and not o.get("propagate"):
+        only_transform = not any(o.get(k) for k in ("downsample", "motion_filter", "merge", "sync", "align", "align_origin", "project", "propagate"))
+        if o.get("transform") and o.get("invert") and captured and only_transform:
             # the applied matrix is the true inverse of the loaded one: exported pose = T^-1 * P (left) / P * T^-1 (right)
             Rz = zR(Tm.q[0])
             Rt = zT(Rz)
